@@ -268,11 +268,20 @@ func (sc *c12Scenario) Run(s *simrt.Sim) {
 	if sc.Kind == "actor" {
 		// Spawn on a closed parent: the child is independent and not registered
 		s.Sleep(time.Nanosecond)
-		child := actors[0].Spawn(func(*fpgo.ActorDef[int], int) {})
+		orphanGot := 0
+		child := actors[0].Spawn(func(_ *fpgo.ActorDef[int], m int) { orphanGot += m })
 		if child.GetParent() != nil || actors[0].GetChild(child.GetID()) != nil {
 			sc.extra = append(sc.extra, Violation{Clause: "registry", Fingerprint: "spawn-on-closed-parent", Detail: "Spawn on a closed parent registered the child"})
 		}
-		child.Close()
+		// ... but it is an independent, working mailbox
+		sender := s.Go("orphan-sender", func() {
+			h.Do("orphan-sender", "Send", 5, func() (interface{}, error) { child.Send(5); return nil, nil })
+		})
+		if !s.WaitUntilTimeout(func() bool { return sender.Done() && orphanGot == 5 }, time.Minute) {
+			sc.extra = append(sc.extra, Violation{Clause: "exactly-once", Fingerprint: "actor:orphan-child-not-processing", Detail: fmt.Sprintf("an actor spawned from a closed parent did not process the message sent to it (sender returned=%v, effect saw %d)", sender.Done(), orphanGot)})
+		} else {
+			child.Close()
+		}
 	}
 	s.Sleep(time.Second)
 	sc.h = h
